@@ -413,3 +413,37 @@ package tan
 //@ nobounds
 //@ requires s.indexes != nil
 //@ loop 1 step len(state.entries) == 1 && state.entries[0].fileNum != 0 ==> n.state == state.entries[0]
+
+// ---------------------------------------------------------------- tan: first index and length of a replica's log (C09)
+// From the property: the log store reports "the correct first index and length". For tan the state of a
+// replica is computed from the index ranges above the snapshot index: the first index is the one right
+// above the snapshot, and first index + length is one past the end of the LAST range -- whatever record
+// boundaries the snapshot index falls between.
+// gQLen / gQLastEnd: number of ranges the last index query returned, and the end of the last of them
+//@ ghost var gQLen int
+//@ ghost var gQLastEnd int
+//@ func (s *nodeStates) query [C09]
+//@ trusted looks up the replica's index and returns the ranges overlapping [low, high) (index.query is not under contract)
+//@ modifies gQLen, gQLastEnd
+//@ ensures len(result0) > 0 ==> result0[len(result0) - 1].end >= low
+//@ ghostset gQLen := len(result0)
+//@ ghostset gQLastEnd := ite(len(result0) > 0, result0[len(result0) - 1].end, old(gQLastEnd))
+//@ func (s *nodeStates) queryState [C09]
+//@ trusted looks up the position of the replica's latest hard-state record
+//@ func (d *db) loadReadState [C09]
+//@ trusted takes a reference on the current read state
+//@ ensures result != nil && result.nodeStates != nil
+//@ func (r *readState) unref [C09]
+//@ trusted drops the reference
+// the scan callback only records the hard state it is handed
+//@ func (d *db) getRaftState$1 [C09]
+//@ noframe
+//@ invariant st.EntryCount == 0 && st.FirstIndex == 0
+//@ func (d *db) getRaftState [C09]
+//@ noframe
+//@ nobounds
+//@ requires lastIndex < MaxUint64
+//@ modifies gQLen, gQLastEnd, gReadFailed
+//@ ensures result1 == nil && gQLen > 0 ==> result0.FirstIndex == lastIndex + 1 && result0.FirstIndex + result0.EntryCount == gQLastEnd + 1
+//@ ensures result1 == nil && gQLen == 0 ==> result0.EntryCount == 0
+//@ loop 1 invariant true
